@@ -463,6 +463,10 @@ func (c *Ctx) boundsArgument(i ssa.Instruction, f, entry *ssa.Function) (string,
 			return c.headerInvariant(sl, call, f)
 		}
 	}
+	// T5: the variable part of the bound is the result of a validating helper of the codec packages
+	if arg, ok := c.helperValidatedBound(sl); ok {
+		return arg, "ok"
+	}
 	// T3: x[lo:hi] guarded by len(x) >= hi over the same expression, non-wrapping
 	if sl.High != nil {
 		return c.guardedSlice(sl)
@@ -852,4 +856,135 @@ func (c *Ctx) callerLengthGuard(i ssa.Instruction) (string, bool) {
 		return "", false
 	}
 	return fmt.Sprintf("T4: operand is parameter %s of the unexported helper %s; all %d call sites pass a value whose length was checked to be >= %d before the call", p.Name(), fnKey(f), sites, need), true
+}
+
+// helperValidatedBound: T5. x[lo : c+m] or x[c+m:] where m is the first result of a helper g(x) of the codec packages
+// whose error result was tested for nil on the way, and every non-error return of g returns a value r, zero-extended
+// from uint8/uint16 into int, under the guard len(<its slice parameter>) >= c2 + r with c2 >= c (the length check moved
+// into the helper together with the computation of the length).
+func (c *Ctx) helperValidatedBound(sl *ssa.Slice) (string, bool) {
+	bound := sl.High
+	lo := int64(0)
+	if bound == nil {
+		bound = sl.Low
+	} else if sl.Low != nil {
+		k, ok := constInt(sl.Low)
+		if !ok {
+			return "", false
+		}
+		lo = k
+	}
+	add, ok := bound.(*ssa.BinOp)
+	if !ok || add.Op != token.ADD {
+		return "", false
+	}
+	if bt, ok := add.Type().Underlying().(*types.Basic); !ok || (bt.Kind() != types.Int && bt.Kind() != types.Int64) {
+		return "", false
+	}
+	var cst int64
+	var m ssa.Value
+	if k, ok := constInt(add.X); ok {
+		cst, m = k, add.Y
+	} else if k, ok := constInt(add.Y); ok {
+		cst, m = k, add.X
+	} else {
+		return "", false
+	}
+	if cst < lo {
+		return "", false
+	}
+	ex, ok := m.(*ssa.Extract)
+	if !ok || ex.Index != 0 {
+		return "", false
+	}
+	call, ok := ex.Tuple.(*ssa.Call)
+	if !ok {
+		return "", false
+	}
+	g := staticCallee(&call.Call)
+	if g == nil || g.Blocks == nil || (fnPkgPath(g) != pkPackets1 && fnPkgPath(g) != pkPackets) || g.Signature.Results().Len() != 2 {
+		return "", false
+	}
+	var param *ssa.Parameter
+	for ai, a := range call.Call.Args {
+		if a == sl.X && ai < len(g.Params) {
+			param = g.Params[ai]
+		}
+	}
+	if param == nil {
+		return "", false
+	}
+	// caller: error of that call compared with nil
+	errOK := false
+	for _, gd := range guardsOf(sl.Block()) {
+		x, y, op, isCmp := cmpGuard(gd)
+		if isCmp && op == token.EQL && isNilConst(y) {
+			if e2, ok := x.(*ssa.Extract); ok && e2.Tuple == ssa.Value(call) && e2.Index == 1 {
+				errOK = true
+			}
+		}
+	}
+	if !errOK {
+		return "", false
+	}
+	nOK := 0
+	for _, b := range g.Blocks {
+		ret, ok := b.Instrs[len(b.Instrs)-1].(*ssa.Return)
+		if !ok || len(ret.Results) != 2 {
+			continue
+		}
+		if !isNilConst(ret.Results[1]) {
+			continue // error path
+		}
+		rv := ret.Results[0]
+		cv, ok := rv.(*ssa.Convert)
+		if !ok {
+			return "", false
+		}
+		if st, ok := cv.X.Type().Underlying().(*types.Basic); !ok || (st.Kind() != types.Uint8 && st.Kind() != types.Uint16) {
+			return "", false
+		}
+		guarded := false
+		for _, gd := range guardsOf(b) {
+			x, y, op, isCmp := cmpGuard(gd)
+			if !isCmp {
+				continue
+			}
+			isLen := func(v ssa.Value) bool {
+				cl, ok := v.(*ssa.Call)
+				if !ok {
+					return false
+				}
+				bi, ok := cl.Call.Value.(*ssa.Builtin)
+				return ok && bi.Name() == "len" && cl.Call.Args[0] == ssa.Value(param)
+			}
+			sum := func(v ssa.Value) bool {
+				a2, ok := v.(*ssa.BinOp)
+				if !ok || a2.Op != token.ADD {
+					return false
+				}
+				if bt, ok := a2.Type().Underlying().(*types.Basic); !ok || (bt.Kind() != types.Int && bt.Kind() != types.Int64) {
+					return false
+				}
+				if k, ok := constInt(a2.X); ok && k >= cst && a2.Y == rv {
+					return true
+				}
+				if k, ok := constInt(a2.Y); ok && k >= cst && a2.X == rv {
+					return true
+				}
+				return false
+			}
+			if (isLen(x) && op == token.GEQ && sum(y)) || (isLen(y) && op == token.LEQ && sum(x)) {
+				guarded = true
+			}
+		}
+		if !guarded {
+			return "", false
+		}
+		nOK++
+	}
+	if nOK == 0 {
+		return "", false
+	}
+	return fmt.Sprintf("T5: the variable part of the bound is the result of %s(x), whose error was tested, and every non-error return of it is guarded by len(x) >= c + result with c >= %d, result zero-extended into int", g.Name(), cst), true
 }
